@@ -222,7 +222,7 @@ pub fn gen_scn(rng: &mut Rng, exec: u64, prop: Prop, o: &GenOpts) -> Scn {
       s.loader = rng.chance(2, 3);
       let clear = rng.chance(1, 2);
       if s.cache.capacity.is_none() && s.cache.ttl.is_none() && !clear {
-        s.once_keys = rng.range(1, 2);
+        s.once_keys = rng.range(1, 3);
       }
       s.weights = w(&[
         (Insert, 14), (InsertTtl, 4), (Remove, 6), (Invalidate, 4), (Clear, if clear { 1 } else { 0 }),
@@ -496,7 +496,9 @@ pub fn do_op(sh: &Shared, tid: usize, kind: Kind, rng: &mut Rng) {
       );
     }
     Kind::Entry => {
-      let k = if sh.scn.once_keys > 0 && rng.chance(1, 3) {
+      let k = if let Some(k) = FORCED_KEY.with(|f| f.take()) {
+        k
+      } else if sh.scn.once_keys > 0 && rng.chance(1, 3) {
         ONCE_BASE + rng.below(sh.scn.once_keys)
       } else if sh.scn.insert_once {
         match sh.write_key(rng) {
@@ -643,10 +645,25 @@ pub fn do_op(sh: &Shared, tid: usize, kind: Kind, rng: &mut Rng) {
   }
 }
 
+thread_local! {
+  static FORCED_KEY: std::cell::Cell<Option<u64>> = const { std::cell::Cell::new(None) };
+}
+
+fn do_once_entry(sh: &Shared, tid: usize, key: u64, rng: &mut Rng) {
+  FORCED_KEY.with(|f| f.set(Some(key)));
+  do_op(sh, tid, Kind::Entry, rng);
+}
+
 fn worker(sh: &Shared, tid: usize) {
   let _g = chaos::enter(sh.scn.seed, sh.scn.exec, tid as u64);
   let mut rng = Rng::derive(sh.scn.seed, sh.scn.exec, tid as u64 + 1);
-  for _ in 0..sh.scn.ops {
+  // or_insert_with burst: all workers, just released by the barrier, hit the same vacant
+  // once-key (and later, unsynchronised, the others)
+  let burst_at: Vec<usize> = (0..sh.scn.once_keys as usize).map(|i| i * (sh.scn.ops / sh.scn.once_keys.max(1) as usize)).collect();
+  for i in 0..sh.scn.ops {
+    if let Some(pos) = burst_at.iter().position(|&b| b == i) {
+      do_once_entry(sh, tid, ONCE_BASE + pos as u64, &mut rng);
+    }
     if sh.stop.load(Ordering::Relaxed) {
       break;
     }
